@@ -64,6 +64,97 @@ def adt_mentions_unordered(P, ty, depth=0, seen=None):
     return None
 
 
+def stale_only_cleanup(P, k, genf, gen_call, c2, fsreach, hit_blocks=None):
+    """Discharge a mutating step that still runs after a cache hit when it can only remove files that are *not* in the list it is handed, and the
+    list handed over on the hit path is the enumeration of the very directory it cleans:
+      (a) c2 receives the value returned by the generating function (the `?`-unwrapped result of gen_call);
+      (b) on its hit path the generating function returns names collected from OutputManager::get_generation_metadata (a read_dir enumeration
+          whose only per-entry conditions are is_file / metadata / file-name conversions);
+      (c) inside c2's callees every filesystem mutator is control-dependent on `<set built from that list>.contains(name) == false`.
+    Then every file of the directory is in the list, so nothing is removed: the hit leaves the directory untouched."""
+    # (a)
+    passed = False
+    for a in c2.args:
+        o = k.origin(a)
+        t = k.describe_origin(o, short=True, deep=6)
+        if short_path(genf.id) in t or genf.id.split("::")[-1] + "(" in t:
+            passed = True
+    if not passed:
+        return False, "it does not receive the generating function's result"
+    # (b)
+    src = False
+    for c in genf.calls:
+        if short_path(c.best) == "OutputManager::get_generation_metadata" and c.bb in genf.reach_blocks:
+            src = True
+    if not src:
+        return False, "the hit path does not return the directory enumeration (get_generation_metadata)"
+    # ... and that enumeration is what the hit path returns: every `Ok(..)` written to the return place inside the hit region derives from it
+    n_ret = 0
+    region = set(hit_blocks or ())
+    work = list(region)
+    gen_blocks = {c.bb for c in genf.calls if c.path == GEN_MODELS}
+    while work:
+        x = work.pop()
+        if x in gen_blocks:
+            continue
+        for y in genf.succ[x]:
+            if y not in region:
+                region.add(y)
+                work.append(y)
+    # blocks that can only be reached through the hit region and before generation
+    for b in sorted(hit_blocks or ()):
+        for st in genf.blocks[b]["stmts"]:
+            rv = st.get("rv")
+            if rv and st["lhs"]["l"] == 0 and not st["lhs"].get("p") and rv["k"] == "aggr" and rv.get("variant") == "Ok":
+                n_ret += 1
+                t = genf.describe_origin(genf.origin(rv["ops"][0]), short=True, deep=8)
+                if "get_generation_metadata" not in t:
+                    return False, "on the hit path the function returns %s, not the directory enumeration" % t[:80]
+    if n_ret == 0:
+        return False, "no return value is produced inside the hit region"
+    gm = P.find("OutputManager::get_generation_metadata")
+    for g in gm:
+        pushes = [c for c in g.calls if short_path(c.path) == "Vec::push" and c.bb in g.reach_blocks]
+        if not pushes:
+            return False, "get_generation_metadata collects nothing"
+        for pc in pushes:
+            for (bb, keep, lose) in g.filters_in_iteration(pc.bb):
+                o, _ = g.cond_struct(bb, keep[0])
+                nm = short_path(o[1].best) if o[0] == "call" else o[0]
+                if o[0] == "call" and o[1].name in ("next", "is_file", "metadata", "file_name", "to_str", "and_then", "branch", "map", "ok", "as_ref", "as_deref"):
+                    continue
+                if o[0] in ("proj", "multi", "arg"):
+                    continue
+                return False, "get_generation_metadata filters the entries it lists (%s)" % nm
+    # (c)
+    for t in P.targets(c2):
+        for fid in sorted(P.reachable([t])):
+            g = P.fns[fid]
+            for c in g.calls:
+                if c.bb not in g.reach_blocks:
+                    continue
+                if is_fs_mut(c) or (any(fsreach(x) for x in P.targets(c)) and not any(x in P.reachable([t]) and x != fid and False for x in P.targets(c))):
+                    if not is_fs_mut(c):
+                        # an intermediate call: its own body is examined when the loop reaches it, but it must itself run under the membership guard
+                        pass
+                    conds = g.must_conditions(c.bb)
+                    guarded = any(re.search(r"HashSet::contains\(.*\)=false", x) for x in conds)
+                    if is_fs_mut(c) and not guarded:
+                        # the mutator may sit in a helper that is only *called* under the guard
+                        callers_guarded = True
+                        for cid in P.rcallgraph.get(fid, ()):
+                            if cid not in P.reachable([t]) and cid != t:
+                                continue
+                            kk = P.fns[cid]
+                            for cc in kk.calls:
+                                if fid in P.targets(cc) and cc.bb in kk.reach_blocks:
+                                    if not any(re.search(r"HashSet::contains\(.*\)=false", x) for x in kk.must_conditions(cc.bb)):
+                                        callers_guarded = False
+                        if not callers_guarded or not P.rcallgraph.get(fid):
+                            return False, "%s in %s is not guarded by a `not in the given list` test" % (short_path(c.best), short_path(fid))
+    return True, "it only removes files that are not in the list it receives, and on a hit that list enumerates the whole directory"
+
+
 def check(ctx):
     P = ctx.P
     reach = P.reachable(ENTRY_POINTS)
@@ -188,6 +279,11 @@ def check(ctx):
                         if c2 is None:
                             continue
                         if is_fs_mut(c2) or any(fsreach(t) for t in P.targets(c2)):
+                            okg, whyg = stale_only_cleanup(P, k, f, cs, c2, fsreach, hit_blocks)
+                            if okg:
+                                r2.ok("%s after a hit: %s" % (short_path(c2.best), whyg))
+                                continue
+                            r2.notes.append("%s after a hit is not discharged as a stale-only clean-up: %s" % (short_path(c2.best), whyg))
                             r2.bad(V(r2.id, k.id, "mutation-after-cache-hit:%s" % short_path(c2.best),
                                      "after %s returned from a cache hit, %s still runs and can mutate the output directory" % (short_path(f.id), c2.best),
                                      c2.file, c2.line))
